@@ -12,6 +12,7 @@ import (
 
 	"github.com/go-kit/log"
 	"github.com/oklog/ulid/v2"
+	"github.com/prometheus/client_golang/prometheus"
 	"github.com/prometheus/prometheus/model/labels"
 	"github.com/prometheus/prometheus/tsdb/index"
 	"github.com/thanos-io/objstore"
@@ -242,6 +243,8 @@ func TestC11(t *testing.T) {
 	defer ws.close()
 	rnd := vt.Rand()
 	samplings := []int{1, 2, 3, 5, 8, 32, 64}
+	crashN := 0
+	crashHist := prometheus.NewHistogram(prometheus.HistogramOpts{Name: "verif_c11_download"})
 
 	gen := func(yield func(vt.Case)) {
 		metaSeen := map[string]bool{}
@@ -314,6 +317,23 @@ func TestC11(t *testing.T) {
 					}
 					yield(vt.Case{"src": "bound", "world": desc, "k": k, "lazy": lazy, "name": "v", "W": W, "absn": absn, "absW": aw})
 				}
+			}
+		}
+		// crash points of the index-header writer: every prefix of the header file (sampled in quick)
+		{
+			desc := map[string]any{"kind": "abs", "n": 7, "pos": "mid", "wseed": 0}
+			w := ws.get(desc)
+			full, err := indexheader.WriteBinary(context.Background(), w.bkt, w.id, "", crashHist)
+			if err != nil {
+				t.Fatalf("WriteBinary: %v", err)
+			}
+			step := vt.Pick(9, 1)
+			for L := -1; L < len(full); L++ { // -1: no file at all
+				if L > 24 && L < len(full)-24 && L%step != 0 {
+					continue
+				}
+				yield(vt.Case{"src": "crash", "world": desc, "k": 1 + (L+3)%3, "lazy": (L+4)%4 == 0, "name": "", "W": []string{}, "absn": 0, "absW": []int{},
+					"prefix": L, "tmp": (L+5)%5 == 0})
 			}
 		}
 		// wide worlds: many label names, UTF-8, long names / values
@@ -394,18 +414,62 @@ func TestC11(t *testing.T) {
 		W := vt.Strs(c["W"])
 		ev = vt.Event{"kind": "lookup", "absent": false, "got": [][]int64{}, "single": [][]int64{}, "goterr": "", "ref": [][]int64{},
 			"size": w.size, "lastname": false, "names_got": []string{}, "names_ref": []string{}, "vals": []any{},
-			"syms_got": []string{}, "syms_ref": []string{}, "sym_beyond_err": true}
+			"syms_got": []string{}, "syms_ref": []string{}, "sym_beyond_err": true, "hdrlen": 0}
 		defer func() {
 			if r := recover(); r != nil {
 				ev["goterr"] = fmt.Sprint("panic: ", r)
 			}
 		}()
-		r, err := ws.reader(desc, w, k, lazy)
+		var r indexheader.Reader
+		var err error
+		if vt.Str(c["src"]) == "crash" {
+			// a store gateway died while writing this index-header: the file holds only the first
+			// `prefix` bytes (and/or a stale .tmp file is left); the reader opened over that directory
+			// must still answer like the full index (it has to notice and rebuild), never serve the torso
+			crashN++
+			dir := filepath.Join(root, fmt.Sprintf("crash-%d", crashN))
+			defer os.RemoveAll(dir)
+			full, werr := indexheader.WriteBinary(ctx, w.bkt, w.id, "", crashHist)
+			if werr != nil {
+				ev["goterr"] = "reference WriteBinary: " + werr.Error()
+				return ev
+			}
+			fn := filepath.Join(dir, w.id.String(), block.IndexHeaderFilename)
+			if err := os.MkdirAll(filepath.Dir(fn), 0o755); err != nil {
+				t.Fatal(err)
+			}
+			L := vt.Int(c["prefix"])
+			if L > len(full) {
+				L = len(full)
+			}
+			if L >= 0 {
+				if err := os.WriteFile(fn, full[:L], 0o644); err != nil {
+					t.Fatal(err)
+				}
+			}
+			if vt.Bool(c["tmp"]) {
+				if err := os.WriteFile(fn+".tmp", full[:len(full)/2], 0o644); err != nil {
+					t.Fatal(err)
+				}
+			}
+			ev["hdrlen"] = len(full)
+			if lazy {
+				r, err = indexheader.NewLazyBinaryReader(ctx, log.NewNopLogger(), w.bkt, dir, w.id, k,
+					indexheader.NewLazyBinaryReaderMetrics(nil), indexheader.NewBinaryReaderMetrics(nil), nil, false)
+			} else {
+				r, err = indexheader.NewBinaryReader(ctx, log.NewNopLogger(), w.bkt, dir, w.id, k, indexheader.NewBinaryReaderMetrics(nil))
+			}
+			if err == nil {
+				defer r.Close()
+			}
+		} else {
+			r, err = ws.reader(desc, w, k, lazy)
+		}
 		if err != nil {
 			ev["goterr"] = "open: " + err.Error()
 			return ev
 		}
-		if vt.Str(c["src"]) == "meta" {
+		if src := vt.Str(c["src"]); src == "meta" || src == "crash" {
 			ev["kind"] = "meta"
 			ev["names_ref"] = w.names
 			ng, err := r.LabelNames()
